@@ -26,6 +26,11 @@ def gen_total(tier, rng):
         else:
             base = datetime.date(2020, 6, 15)
         h, mi = rng.randrange(24), rng.randrange(60)
+        opens = [e.a.off for r in d.records for e in r.entries if e.kind == "open"]
+        if use_now and opens and rng.random() < 0.4:
+            # the very minute an open range started (a range of length zero is a range), or the minute before / after
+            o = (rng.choice(opens) + rng.choice([0, 0, 0, -1, 1])) % 1440
+            h, mi = o // 60, o % 60
         req = "eval-total %d %d %d %d %d %d %s" % (base.year, base.month, base.day, h, mi, 1 if use_now else 0, d.render().hex())
         # what the specification says
         total = sum(r.total() for r in d.records)
@@ -56,7 +61,7 @@ def gen_total(tier, rng):
         for _k in range(rng.choice([2, 2, 3, 4])):
             delta = rng.choice([0, 0, -1, -1, -2, 1])
             d = base + datetime.timedelta(days=delta)
-            start = rng.choice([0, rng.randrange(1440), max(0, now_off - 5), min(1439, now_off + 5)])
+            start = rng.choice([0, rng.randrange(1440), max(0, now_off - 5), min(1439, now_off + 5), now_off, now_off, max(0, now_off - 1), min(1439, now_off + 1)])
             shifted = rng.random() < 0.15
             recs.append((d, delta, start, shifted, rng.random() < 0.8, rng.randrange(0, 120)))
         text = ""; total = 0; status = "ok"
